@@ -669,8 +669,33 @@ class MiniSSH:
         data = sstr(v_c) + sstr(v_s) + sstr(i_c) + sstr(i_s) + sstr(k_s) + pub_c + pub_s + mpint(k)
         return hashlib.new(KEX_ALGS[self.negotiated['kex']][1], data).digest()
 
+    # K shapes an independent peer can force as a server (it sees the client's value before it chooses its
+    # own): the mpint encoding of K differs between them (RFC 4251 5: no superfluous leading zero bytes, one
+    # zero byte in front when the top bit is set)
+    K_SHAPES = {
+        'lead0': lambda k, n: k < (1 << (8 * (n - 1) - 1)),                 # raw secret starts 00, next < 0x80
+        'lead0hi': lambda k, n: (1 << (8 * (n - 1) - 1)) <= k < (1 << (8 * (n - 1))),   # 00 then >= 0x80
+        'hi': lambda k, n: k >= (1 << (8 * n - 1)),                        # top bit set
+    }
+    k_shape = None              # name in K_SHAPES: grind our ephemeral value until K has that shape
+    k_shape_hit = False
+
+    def _raw_len(self):
+        fam = self._eph.family
+        return 32 if fam in ('x25519', 'p256') else (DH_PRIMES[fam].bit_length() + 7) // 8
+
     def _server_reply(self, r):
+        pos = r.pos
         pub_c, k = self._eph.shared(r)
+        if self.k_shape is not None:
+            want, n = self.K_SHAPES[self.k_shape], self._raw_len()
+            for _ in range(6000):
+                if want(k, n):
+                    self.k_shape_hit = True
+                    break
+                self._eph = _Ephemeral(self._eph.family, self.rng)
+                r.pos = pos
+                pub_c, k = self._eph.shared(r)
         k_s = host_key_blob(self._host_private)
         h = self._exchange_hash(k_s, pub_c, self._eph.encoded, k)
         sig = host_sign(self._host_private, self.negotiated['hostkey'], h)
